@@ -270,11 +270,27 @@ func (w *World) cycleInvariants(c *cycleRec, tr *cyc.CycleTrace, phase string) {
 		}
 		// C07, closed loop: a removed shard really was empty for longer than max-idle-time
 		if e.Property == "C07" && count <= sc.Opt.MaxShard {
+			// judged on the cluster's own pods (by ordinal), not on the coordinator's view of them
+			var sts *Replica
+			for _, s := range rep.Shards {
+				if p := w.podByName(s.ID); p != nil {
+					sts = w.CL.Reps[p.Rep]
+					break
+				}
+			}
 			for _, x := range rep.Scale {
-				for i := int(x.Value); i >= 0 && i < len(rep.Shards); i++ {
-					p := w.podByName(rep.Shards[i].ID)
-					if p == nil || !p.Running {
-						continue
+				if sts == nil {
+					break
+				}
+				var ords []int
+				for o := range sts.Pods {
+					ords = append(ords, o)
+				}
+				sort.Ints(ords)
+				for _, i := range ords {
+					p := sts.Pods[i]
+					if i < int(x.Value) || !p.Running || !p.Created.Before(c.Start) {
+						continue // (a pod created after the cycle listed the pods is not part of "the current count")
 					}
 					if p.EmptySince == nil {
 						e.Violate("world-removes-shard-in-use", "", "cycle %d: %d shards requested although %s still scrapes targets (by the sidecar's own status)", c.N, x.Value, p.Name)
